@@ -501,6 +501,26 @@ def run(chk):
                         b = b.value if not isinstance(b, ast.Call) else b.func
                     if isinstance(b, ast.Name):
                         collected.add(b.id)
+        # values derived from the collected neighbourhoods (a later loop over them, a flag computed from them)
+        changed = True
+        while changed:
+            changed = False
+            for n in A.walk_local(ri.node):
+                src, tg = None, None
+                if isinstance(n, ast.Assign):
+                    src, tg = n.value, n.targets
+                elif isinstance(n, ast.For):
+                    src, tg = n.iter, [n.target]
+                elif isinstance(n, ast.AugAssign):
+                    src, tg = n.value, [n.target]
+                if src is None or not any(isinstance(x, ast.Name) and x.id in collected for x in ast.walk(src)):
+                    continue
+                for t_ in tg:
+                    for x in ast.walk(t_):
+                        if isinstance(x, ast.Name) and x.id not in collected:
+                            collected.add(x.id)
+                            changed = True
+        all_loops = [n for n in A.walk_local(ri.node) if isinstance(n, ast.For)]
         dep_guards = [n for n in A.walk_local(ri.node) if isinstance(n, ast.If) and any(isinstance(b, ast.Raise) for b in n.body)
                       and loops and n.lineno > loops[0].lineno
                       and any(isinstance(x, ast.Name) and x.id in collected for x in ast.walk(n.test))]
@@ -517,7 +537,7 @@ def run(chk):
             acc = None
             for g in dep_guards:
                 names = {x.id for x in ast.walk(g.test) if isinstance(x, ast.Name)}
-                for lp in loops:
+                for lp in all_loops:
                     for n in ast.walk(lp):
                         tgt = n.targets[0] if isinstance(n, ast.Assign) else n.target if isinstance(n, ast.AugAssign) else None
                         if isinstance(tgt, ast.Name) and tgt.id in names:
@@ -710,6 +730,22 @@ def run_Q5(chk):
                                 tested.add(t_.left.id)
                             if isinstance(t_, ast.Name) and isinstance(cur.test, (ast.Name, ast.BoolOp)) and isinstance(t_.ctx, ast.Load):
                                 tested.add(t_.id) if isinstance(cur.test, ast.Name) or (isinstance(cur.test, ast.BoolOp) and isinstance(cur.test.op, ast.And) and t_ in cur.test.values) else None
+                # ... or an earlier statement of an enclosing block leaves (continue / return / raise) when the end is None
+                cur = c
+                while cur in par:
+                    prev, cur = cur, par[cur]
+                    for fld in ("body", "orelse"):
+                        blk = getattr(cur, fld, None)
+                        if isinstance(blk, list) and prev in blk:
+                            for st_ in blk[:blk.index(prev)]:
+                                if isinstance(st_, ast.If) and st_.body and isinstance(st_.body[-1], (ast.Continue, ast.Return, ast.Raise)) and not st_.orelse:
+                                    disj = st_.test.values if isinstance(st_.test, ast.BoolOp) and isinstance(st_.test.op, ast.Or) else [st_.test]
+                                    for t_ in disj:
+                                        if isinstance(t_, ast.Compare) and len(t_.ops) == 1 and isinstance(t_.ops[0], ast.Is) and isinstance(t_.left, ast.Name) \
+                                                and isinstance(t_.comparators[0], ast.Constant) and t_.comparators[0].value is None:
+                                            tested.add(t_.left.id)
+                                        if isinstance(t_, ast.UnaryOp) and isinstance(t_.op, ast.Not) and isinstance(t_.operand, ast.Name):
+                                            tested.add(t_.operand.id)
                 missing = [e for e in ends if e not in tested]
                 chk.verdict("Q5", (meth, c), f"{ci.name}.{meth.name}: `{A.short(c, 30)}` under `is not None` of {ends}", False if missing else True,
                             f"{ci.name}.{meth.name}(): `{A.short(c, 40)}` is built from `{', '.join(missing)}` = nn_site(..), which is None beyond an open "
